@@ -31,6 +31,7 @@ def run_cases(job, fn, budget_s=None):
     from pv.monitors import M, MonitorBug, InjectedFault
     t0 = time.time()
     done = 0
+    returns = []
     for idx in range(job['lo'], job['hi']):
         if budget_s and time.time() - t0 > budget_s:
             break
@@ -39,7 +40,9 @@ def run_cases(job, fn, budget_s=None):
         rng = case_rng(job['seed'], job['prop'], job['kind'], idx)
         M.case = case
         try:
-            fn(rng, case, idx)
+            ret = fn(rng, case, idx)
+            if isinstance(ret, dict):
+                returns.append(ret)
         except MonitorBug:
             pass
         except InjectedFault:
@@ -47,4 +50,4 @@ def run_cases(job, fn, budget_s=None):
         except Exception:
             M.bugs.append('case driver error:\n' + traceback.format_exc())
         done += 1
-    return {'cases_done': done, 'cases_planned': job['hi'] - job['lo']}
+    return {'cases_done': done, 'cases_planned': job['hi'] - job['lo'], 'returns': returns}
